@@ -20,7 +20,7 @@ META = {
         "spelling (semantics of from_str_radix, f64::from_str, data_encoding) is trusted, not decided."),
     "assumptions": ["u64::from_str_radix / str::parse / hexf_parse / data_encoding decode exactly or fail (trusted std/deps)"],
     "trusted_base": ["syn 2 parser", "pest_meta grammar parser", "lib/absint.py"],
-    "technique": "static analysis: abstract interpretation on boundary values, who-may-call, cast census, must-pass-through, error-discipline rule, grammar/slice agreement",
+    "technique": "static analysis: abstract interpretation on boundary values, who-may-call, cast census, must-pass-through, failure-consumption classification of every fallible conversion, grammar/slice agreement, producer/consumer representation agreement of byte-string payloads",
 }
 
 B = "src/pest_bridge.rs"
